@@ -145,6 +145,39 @@ static void single_rewrites(const Node& root, bool thorough, const std::function
 }
 
 #undef n
+// ---- compact rewrite operations for pairwise composition (thorough tier)
+struct RwOp { size_t node; int kind; };   // 0 toggle definite/indefinite, 1 chunk string in two, 2 widen head to 8 bytes, 3 reverse map, 4 unknown member (nested value) in front, 5 unknown member (indefinite value) at the end
+static const char* RWN[] = {"toggle-indef", "chunk2", "widen27", "reverse", "unknown-front", "unknown-end"};
+static std::vector<RwOp> enumerate_ops(const Node& root) {
+    std::vector<RwOp> ops; size_t i = 0;
+    visit(root, [&](const Node& x) {
+        if (x.major == 4 || x.major == 5) ops.push_back({i, 0});
+        if ((x.major == 2 || x.major == 3) && !x.indef) ops.push_back({i, 1});
+        if (x.major != 7 && !x.indef) ops.push_back({i, 2});
+        if (x.major == 5 && x.kids.size() >= 4) ops.push_back({i, 3});
+        if (x.major == 5) { ops.push_back({i, 4}); ops.push_back({i, 5}); }
+        i++; });
+    return ops;
+}
+static void apply_op(Node& root, const RwOp& op) {
+    Node* np = nullptr; size_t k = 0; visit(root, [&](Node& x) { if (k++ == op.node) np = &x; }); Node& x = *np;
+    switch (op.kind) {
+    case 0: x.indef = !x.indef; break;
+    case 1: { Node a = x, b = x; size_t L = x.bytes.size(); a.bytes = x.bytes.substr(0, L / 2); b.bytes = x.bytes.substr(L / 2); a.kids.clear(); b.kids.clear(); a.ai = min_ai(a.bytes.size()); b.ai = min_ai(b.bytes.size()); x.indef = true; x.kids = {a, b}; break; }
+    case 2: x.ai = 27; break;
+    case 3: { std::vector<Node> kk; for (size_t j = x.kids.size(); j >= 2; j -= 2) { kk.push_back(x.kids[j - 2]); kk.push_back(x.kids[j - 1]); } x.kids = kk; break; }
+    case 4: x.kids.insert(x.kids.begin(), {mk_uint(99), mk_array({mk_uint(1), mk_map({mk_uint(2), mk_tag(1, mk_bstr("v"))})})}); break;
+    case 5: { Node v = mk_array({mk_float(26, 7), mk_tstr("u")}); v.indef = true; x.kids.insert(x.kids.end(), {mk_nint(41), v}); break; }
+    }
+}
+static void pair_rewrites(const Node& root, const std::function<void(const std::string&, const std::string&)>& f) {
+    auto ops = enumerate_ops(root);
+    for (size_t a = 0; a < ops.size(); a++) for (size_t b = a + 1; b < ops.size(); b++) {
+        if (ops[a].node == ops[b].node) continue;
+        Node w = root; apply_op(w, ops[b]); apply_op(w, ops[a]);   // higher pre-order index first: the lower index stays valid
+        f(std::string("pair-") + RWN[ops[a].kind] + "@" + std::to_string(ops[a].node) + "+" + RWN[ops[b].kind] + "@" + std::to_string(ops[b].node), encode(w));
+    }
+}
 static void chunk_all(Node& n) { for (auto& k : n.kids) chunk_all(k); if ((n.major == 2 || n.major == 3) && !n.indef) { Node c = n; n.indef = true; n.kids = {c}; } }
 static void global_rewrites(const Node& root, const std::function<void(const std::string&, const std::string&)>& f) {
     auto values = unknown_values();
@@ -285,6 +318,9 @@ int main(int argc, char** argv) {
             if (si < 2 || T) single_rewrites(root, T, add); else if (si == 3) single_rewrites(root, false, add);
             global_rewrites(root, add);
         }
+        // pairs of local rewrites (thorough): kept as index triples and materialised lazily in the workers
+        struct PairCase { size_t seed, a, b; }; std::vector<PairCase> pairs; std::vector<std::vector<RwOp>> seed_ops(seeds.size()); std::vector<Node> seed_trees;
+        for (size_t si = 0; si < seeds.size(); si++) { seed_trees.push_back(parse_exact(seeds[si].second)); if (T && (si == 1 || si == 3)) { seed_ops[si] = enumerate_ops(seed_trees[si]); auto& o = seed_ops[si]; for (size_t x = 0; x < o.size(); x++) for (size_t y = x + 1; y < o.size(); y++) if (o[x].node != o[y].node) pairs.push_back({si, x, y}); } }
         // "poison" inputs: reads that fail in the middle of skipping a nested unknown value. Decoding must be a function of the input alone,
         // so a failed read immediately before (same thread, fresh reader object) must not change what the next file decodes to.
         std::vector<std::string> poison;
@@ -298,9 +334,24 @@ int main(int argc, char** argv) {
         Pool pool(a.jobs, 120);
         // phase 1 (indices < N): plain reads; phase 2 (indices >= N): each read right after a failed read. Workers run indices in increasing
         // order, so no phase-1 read ever follows a failed read in its thread and every violation replays from its own case alone.
-        size_t NC = cases.size();
-        pool.run(2 * NC, [&](uint64_t idx, Result& R) {
+        size_t NC = cases.size(); size_t PCH = 256, NPT = (pairs.size() + PCH - 1) / PCH;
+        pool.run(2 * NC + NPT, [&](uint64_t idx, Result& R) {
             if (a.expired()) { R.deadline_hit = true; return; }
+            if (idx >= 2 * NC) {   // a chunk of pair cases (phase 1 semantics: plain read compared with the original)
+                for (size_t pi = (idx - 2 * NC) * PCH; pi < std::min(pairs.size(), (idx - 2 * NC + 1) * PCH); pi++) {
+                    const PairCase& pc = pairs[pi]; const RwOp& oa = seed_ops[pc.seed][pc.a]; const RwOp& ob = seed_ops[pc.seed][pc.b];
+                    Node w = seed_trees[pc.seed]; apply_op(w, ob); apply_op(w, oa); std::string bytes = encode(w);
+                    std::string desc = std::string("pair-") + RWN[oa.kind] + "@" + std::to_string(oa.node) + "+" + RWN[ob.kind] + "@" + std::to_string(ob.node);
+                    std::string rep = "seed=" + seeds[pc.seed].first + ";rw=" + desc + ";orig=" + hex(seeds[pc.seed].second) + ";variant=" + hex(bytes); set_note(rep.substr(0, 7000));
+                    std::string rd; try { rd = lib::file_dump(read_file(bytes)); } catch (std::exception& e) { rd = std::string("ref-rejects:") + e.what(); }
+                    if (rd != orig_ref[pc.seed]) { R.count("generator_rejects"); R.notes.push_back("generator produced a non-equivalent file for " + desc); continue; }
+                    std::string ld = lib::file_dump(lib::read_bytes(bytes)); R.count("traces"); R.count("nontrivial"); R.count("pair_cases");
+                    std::string kind = std::string("pair|") + RWN[oa.kind] + "+" + RWN[ob.kind];
+                    if (ld != orig_dump[pc.seed]) R.violation("rewrite|" + kind, "seed " + seeds[pc.seed].first + " " + desc + ": reader output differs from the original", rep);
+                    R.outcome(kind + (ld != orig_dump[pc.seed] ? ":viol" : ":ok"));
+                }
+                return;
+            }
             bool phase2 = idx >= NC; uint64_t i = phase2 ? idx - NC : idx;
             const Case& c = cases[i];
             std::string rep = "seed=" + seeds[c.seed].first + ";rw=" + c.desc + ";orig=" + hex(seeds[c.seed].second) + ";variant=" + hex(c.bytes);
@@ -318,6 +369,7 @@ int main(int argc, char** argv) {
             std::string ld = lib::file_dump(lib::read_bytes(c.bytes));
             R.count("traces"); R.count("nontrivial");
             std::string kind = c.desc.substr(0, c.desc.find('@'));
+            if (kind.rfind("pair-", 0) == 0) { size_t pl = c.desc.find('+'); std::string k2 = c.desc.substr(pl + 1); kind += "+" + k2.substr(0, k2.find('@')); }
             if (kind.rfind("unknown-key", 0) == 0) { size_t v = kind.find("-val-"); size_t e = kind.find("-pos"); kind = "unknown-member|val-" + kind.substr(v + 5, e - v - 5); }
             if (ld != orig_dump[c.seed]) {
                 size_t p = 0; while (p < ld.size() && p < orig_dump[c.seed].size() && ld[p] == orig_dump[c.seed][p]) p++;
@@ -326,7 +378,7 @@ int main(int argc, char** argv) {
             }
             R.outcome(kind + (ld != orig_dump[c.seed] ? ":viol" : ":ok"));
             if (i % 5003 == 11) R.sample("seed=" + seeds[c.seed].first + ";rw=" + c.desc);
-        }, [&](uint64_t i, const std::string& d, Result& R) { R.violation("rewrite|" + crash_key(d), "crash on " + cases[i % NC].desc + ": " + d.substr(0, 1500), pool.last_note); }, total);
+        }, [&](uint64_t i, const std::string& d, Result& R) { R.violation("rewrite|" + crash_key(d), "crash: " + d.substr(0, 1500), pool.last_note); }, total);
         total.n["evaluations"] = total.n["traces"];
         if (total.n["generator_rejects"]) { fprintf(stderr, "generator produced %lu non-equivalent files\n", (unsigned long)total.n["generator_rejects"]); for (auto& n : total.notes) fprintf(stderr, "  %s\n", n.c_str()); a.finish(total); rm_rf(g_dir); return 2; }
         return done(0);
